@@ -6,7 +6,7 @@ func init() {
 	register(&Def{
 		ID:          "C15",
 		Technique:   "dominance rules in the handler closure built by Wrap (decode → call → decode), error-constant provenance of the input decoders, closure-capture (snapshot) rule for options, condition table of Check's refusals with a reachability evaluation",
-		Explanation: "NARROW. Decides only: (D1) in the handler Wrap builds, the reflective call is reached exactly on the input decoder's err == nil edge with the decoder's values, once, and the decoder's error is returned without calling; (D2) every error an input decoder returns is the InvalidParams sentinel or built with code InvalidParams; (D3) results flow through an output decoder that returns only the function's own result values; (D4) no closure of a built handler reads the FuncInfo's options at call time (they are fixed at wrap time), and strictness is derived from the option and the parameter type's DisallowUnknownFields method; (D5) Check returns either a FuncInfo or an error, never neither/both; (D6) each documented refusal has an error return governed by its test, and the variadic refusal is reachable for two-parameter functions. (D7) Request.HasParams is exactly 'the raw parameters are non-empty'. (D8) ReportsError is stored from / under the identity test Out(i) == error type.",
+		Explanation: "NARROW. Decides only: (D1) in the handler Wrap builds, the reflective call is reached exactly on the input decoder's err == nil edge with the decoder's values, once, and the decoder's error is returned without calling; (D2) every error an input decoder returns is the InvalidParams sentinel or built with code InvalidParams; (D3) results flow through an output decoder that returns only the function's own result values; (D4) no closure of a built handler reads the FuncInfo's options at call time (they are fixed at wrap time), and strictness is derived from the option and the parameter type's DisallowUnknownFields method; (D5) Check returns either a FuncInfo or an error, never neither/both; (D6) each documented refusal has an error return governed by its test, and the variadic refusal is reachable for two-parameter functions. (D7) Request.HasParams is exactly 'the raw parameters are non-empty'. (D8) ReportsError is stored from / under the identity test Out(i) == error type. (D9) package-level tables of the handler package are not keyed by a type's name or a function's code pointer; what Check computed in a FuncInfo is written only while it is built (option setters change their own flag only).",
 		NotDecided:  []string{"that the decoded argument equals encoding/json's for every signature and params", "that Check accepts exactly the documented schemes (only the refusals' presence is decided)", "freedom from reflection panics"},
 		Assumptions: []string{"reflect and encoding/json semantics"},
 		RuleText:    ruleText,
@@ -15,6 +15,8 @@ func init() {
 			ruleWrapCallsOnce(c)
 			ruleHasParamsIsPresence(c)
 			ruleReportsErrorExact(c)
+			ruleCacheKeysAreIdentities(c)
+			ruleFuncInfoFixedAfterCheck(c)
 			ruleDecodeTargets(c)
 			ruleOmitTagWholeTag(c)
 			ruleUnmarshalParamsErrors(c)
@@ -29,7 +31,7 @@ func init() {
 	register(&Def{
 		ID:          "C16",
 		Technique:   "dominance of success returns by the length equality, per-call allocation and index-provenance rules in the generated caller, presence-governed decode in Obj",
-		Explanation: "NARROW. Decides only: (D1) Positional enables strict fields on its success path, the argument struct is built only when the number of names equals the arity, and the generated caller allocates its argument slice per call and passes field i as argument i+1; (D2) in Args.UnmarshalJSON and the array-to-object translation every successful return after the array parse is governed by len(got) == len(want); (D3) Obj decodes, on the key-present edge only, that key's value into the receiver's own target for the same key. (D4) Positional records exactly the names it was given, and Args.MarshalJSON returns json.Marshal's pair. (D5) a helper that maps a decoding error returns nil only where its argument is nil; the handler package configures json.Decoder with DisallowUnknownFields only.",
+		Explanation: "NARROW. Decides only: (D1) Positional enables strict fields on its success path, the argument struct is built only when the number of names equals the arity, and the generated caller allocates its argument slice per call and passes field i as argument i+1; (D2) in Args.UnmarshalJSON and the array-to-object translation every successful return after the array parse is governed by len(got) == len(want); (D3) Obj decodes, on the key-present edge only, that key's value into the receiver's own target for the same key. (D4) Positional records exactly the names it was given, and Args.MarshalJSON returns json.Marshal's pair. (D5) a helper that maps a decoding error returns nil only where its argument is nil; the handler package configures json.Decoder with DisallowUnknownFields only. (D6) package-level tables of the handler package are not keyed by a type's name or a function's code pointer.",
 		NotDecided:  []string{"element-wise decoding equivalence, null handling, unknown-name rejection (delegated to encoding/json with DisallowUnknownFields)"},
 		Assumptions: []string{"reflect.MakeFunc / StructOf semantics"},
 		RuleText:    ruleText,
@@ -39,6 +41,7 @@ func init() {
 			rulePositionalNames(c)
 			ruleErrorMappersKeepFailure(c, c.M.HandlerPkg, "ERR.propagate")
 			ruleDecoderConfiguration(c)
+			ruleCacheKeysAreIdentities(c)
 			ruleArgsMarshal(c)
 			ruleWrapSnapshot(c)
 			c.Clause("C16-D2")
